@@ -117,7 +117,7 @@ fn tree_words(inst: &Inst) -> Vec<(u8, usize, bool)> {
     (0..inst.alloc.trees.len())
         .map(|i| {
             let (c, f, r) = inst.alloc.trees.stats_at(TreeId(i));
-            (c.0, f, r)
+            (inst.int(c.0), f, r)
         })
         .collect()
 }
@@ -239,11 +239,11 @@ impl<'a> Run<'a> {
         slot: Option<usize>,
     ) -> Res<llfree::Result<(usize, u8)>> {
         self.out.calls += 1;
-        let req = Request::new(order, Class(class), slot);
+        let req = Request::new(order, Class(self.cfg.classes.ext(class)), slot);
         let a = &self.inst.alloc;
         let r = guarded(|| a.get(target.map(FrameId), req))
             .map_err(|p| self.panic_viol("get", p))?
-            .map(|(f, c)| (f.0, c.0));
+            .map(|(f, c)| (f.0, self.inst.int(c.0)));
         if let Some(s) = &mut self.out.script {
             s.push(format!(
                 "G {} {order} {class} {} = {}",
@@ -255,7 +255,7 @@ impl<'a> Run<'a> {
         if let Some(t) = &self.twin {
             let r2 = guarded(|| t.alloc.get(target.map(FrameId), req))
                 .map_err(|p| self.panic_viol("twin get", p))?
-                .map(|(f, c)| (f.0, c.0));
+                .map(|(f, c)| (f.0, self.inst.int(c.0)));
             if r != r2 {
                 return Err(self.viol(
                     "C07",
@@ -272,7 +272,7 @@ impl<'a> Run<'a> {
         slot: Option<usize>,
     ) -> Res<llfree::Result<()>> {
         self.out.calls += 1;
-        let req = Request::new(b.order, Class(class), slot);
+        let req = Request::new(b.order, Class(self.cfg.classes.ext(class)), slot);
         let a = &self.inst.alloc;
         let r = guarded(|| a.put(FrameId(b.frame), req)).map_err(|p| self.panic_viol("put", p))?;
         if let Some(s) = &mut self.out.script {
@@ -794,11 +794,11 @@ impl<'a> Run<'a> {
         };
         let m = TreeMatch {
             id: id.map(TreeId),
-            class: class.map(Class),
+            class: class.map(|c| Class(self.cfg.classes.ext(c))),
             free: min_free,
         };
         let c = TreeChange {
-            class: set_class.map(Class),
+            class: set_class.map(|c| Class(self.cfg.classes.ext(c))),
             operation: match op {
                 TreeOp::None => None,
                 TreeOp::Online => Some(TreeOperation::Online),
@@ -1173,7 +1173,7 @@ pub fn script_of(case: &SeqCase) -> Option<Vec<String>> {
         crate::cfg::ClassKind::Movable(s) => ("movable", s.to_vec()),
         crate::cfg::ClassKind::Zeroed(s) => ("zeroed", s.to_vec()),
         crate::cfg::ClassKind::Single(s) => ("single", vec![*s]),
-        crate::cfg::ClassKind::WithInvalid(_) => return None,
+        crate::cfg::ClassKind::WithInvalid(_) | crate::cfg::ClassKind::SimpleIds(..) | crate::cfg::ClassKind::MovableIds(..) => return None,
     };
     let mut lines = vec![format!(
         "CFG {} {} {kind} {}",
